@@ -140,7 +140,13 @@ func (t *fnTrans) call(ins ssa.Instruction, c *ssa.CallCommon, res ssa.Value) {
 		} else {
 			label = t.eng.shortName(name) + "." + label
 		}
-		if t.ct.Flags["assumepre"] != "" && kind == "static" {
+		proveAnyway := false
+		for _, lb := range strings.Split(t.ct.Flags["provepre"], ",") {
+			if lb = strings.TrimSpace(lb); lb != "" && lb == cl.Label {
+				proveAnyway = true // flag provepre <labels>: these callee preconditions stay obligations under assumepre
+			}
+		}
+		if t.ct.Flags["assumepre"] != "" && kind == "static" && !proveAnyway {
 			// refinement wrapper: the implementation's own preconditions are the stated assumption under which the
 			// interface contract is proved for it (listed in the trusted base; see trustedBase)
 			t.assume(f)
